@@ -9,7 +9,7 @@ META = {
             'with 1-7 states (one state, F empty, F = Q, unreachable states, chains); the three routines are compared with the Lean '
             'models (exact, names included) and checked directly: valid DFA, same alphabet, language equal (exact product BFS), '
             'states pairwise distinguishable, size between the Nerode-class counts of reachable / all states, input untouched, same '
-            'result under every hash seed; non-trivial = input with two equivalent states or an unreachable state; distinct by content',
+            'result under every hash seed; non-trivial = input with two equivalent states or an unreachable state; distinct by content; also modulo-n counter DFAs with random names (several refinement rounds), state names that look like class names (\'{q1,q2}\' next to equivalent q1, q2; \'a,b\': the recorded class-name finding is decided per case)',
     'assumptions': ['DFA.valid (constructor); state names \\w+'],
     'trusted_base': ['Spec: Gamba/Spec/Automata.lean (Dist, Reachable)'],
 }
